@@ -14,7 +14,9 @@ C01); each rule is per task execution, hence holds under every schedule:
  R6 source tasks: the batch size put in the task is the amount added to the launched counter;
  R7 external sources: the remaining-counter is decremented after the task's packets are stored, the flush is
     created once (remaining == 0 and an atomic once-flag), every flush / source task holds its block's lock;
- R8 DistributedPhotonSource::get_photon_batch updates its counter under the source's lock, bounded by the total.
+ R8 DistributedPhotonSource::get_photon_batch updates its counter under the source's lock, bounded by the total;
+ R10 (c01_budget.py) the packet budgets of the source types add up to the request on every set-up path;
+ R11 (c01_lock.py) every traversal task depends on the lock of the subgrid whose index it stores.
 Not decided: schedule-dependent quiescence detection (the run flag is a plain bool) and the arithmetic of
 the per-source split.
 """
@@ -556,6 +558,19 @@ def rule_R7(chk, unit, drv):
                                                                cls="AtomicValue"):
                         once_decl = d
         once = [t for t in gtxt if once_decl is not None and once_decl["n"] in t and "== 1" in t]
+        inc_nodes = [nd for nd in g.nodes if calls_in(nd, lambda x: C.is_call(x, name="pre_increment", cls="AtomicValue"))]
+        if not once:
+            # the once-flag tested directly: `flag.pre_increment() == 1` as (part of) a guard
+            for b in guards:
+                e_ = C.strip_casts(b.ast)
+                if e_ is not None and e_.get("k") == "Bin" and e_.get("op") == "==" and C.const_int(e_["b"]) == 1 and \
+                        C.is_call(C.strip_casts(e_["a"]), name="pre_increment", cls="AtomicValue"):
+                    once.append(C.pretty(b.ast))
+        # the once-flag may only be touched when no packets remain (otherwise the first task to look uses it up)
+        zero_nodes = [b for b in guards if ".value()" in C.pretty(b.ast) and "== 0" in C.pretty(b.ast)]
+        order_ok = True
+        if zero_nodes and inc_nodes and once:
+            order_ok = all(zero_nodes[0].id in doms[nd.id] and zero_nodes[0].id != nd.id for nd in inc_nodes)
         # equivalent idiom: one atomic read-modify-write whose result is tested (`pre_subtract(n) == 0` is seen by
         # exactly one task)
         rmw = []
@@ -567,22 +582,36 @@ def rule_R7(chk, unit, drv):
                             C.is_call(C.strip_casts(ie["a"]), name="pre_subtract", cls="AtomicValue"):
                         rmw.append(d2["n"])
         single = [t for t in gtxt if t in rmw]
-        okk = (len(zero) == 1 and len(once) == 1) or len(single) == 1
-        detail = "the flush tasks are created under %s; required: remaining == 0 and an atomic once-flag == 1 (two tasks " \
-                 "can both observe 0 and flush twice, or a task can flush before the others have stored their packets)" % gtxt
+        okk = (len(zero) == 1 and len(once) == 1 and order_ok) or len(single) == 1
+        detail = "the flush tasks are created under %s; required: remaining == 0 and an atomic once-flag == 1, the flag being " \
+                 "touched only after remaining == 0 was seen (two tasks can both observe 0 and flush twice, a task can flush " \
+                 "before the others have stored their packets, or the flag is used up while packets remain)" % gtxt
     chk.require(okk, "R7", "the flush is scheduled exactly once, when no packets remain", where(fn), detail,
                 function=fn["full"], construct="flush once")
     # every flush task holds the lock of its block
     n += 1
-    loops = [s for s in C.walk_stmt(fn["body"]) if s.get("k") == "For" and
+    loops = [s for s in C.walk_stmt(fn["body"]) if s.get("k") in ("For", "While") and
              any(C.is_call(x, name="set_type") and x["a"] and C.strip_casts(x["a"][0]).get("n") ==
                  "TASKTYPE_FLUSH_CONTINUOUS_PHOTON_BUFFERS" for x in C.walk_stmt(s["body"]))]
     okk = len(loops) == 1
     detail = "flush creation loop not found"
+    ikey = None
     if okk:
         lp = loops[0]
-        iv = lp["init"]["d"][0]
-        ikey = ("local", iv["id"], iv["n"])
+        if lp.get("k") == "For" and lp.get("init") is not None and lp["init"].get("k") == "Decl":
+            iv = lp["init"]["d"][0]
+            ikey = ("local", iv["id"], iv["n"])
+        else:
+            # the counter of a while loop: the local compared in the condition and stepped in the body
+            cnd_refs = [x for x in C.walk(lp["c"]) if x.get("k") == "Ref" and "id" in x] if lp.get("c") is not None else []
+            stepped = {C.strip_casts(x["x"]).get("id") for x in C.walk_stmt(lp["body"])
+                       if x.get("k") == "Un" and x.get("op") in ("pre++", "post++")}
+            cands_ = [x for x in cnd_refs if x["id"] in stepped]
+            if len(cands_) == 1:
+                ikey = ("local", cands_[0]["id"], cands_[0]["n"])
+        okk = ikey is not None
+        detail = "the counter of the flush creation loop was not recognised"
+    if okk:
         sg = [x for x in C.walk_stmt(lp["body"]) if C.is_call(x, name="set_subgrid", cls="Task")]
         dep = [x for x in C.walk_stmt(lp["body"]) if C.is_call(x, name="set_dependency", cls="Task")]
         okk = len(sg) == 1 and len(dep) == 1 and C.ref_key(sg[0]["a"][0]) == ikey and \
@@ -840,6 +869,8 @@ def run(chk, prog):
                 seen.add(d["full"])
                 chk.analysed(function=d["full"])
                 label = "%s %s" % (short, d["cls"])
+                # private helpers of the context (a task-creation helper extracted by a refactoring) are read in place
+                d = C.with_inlined_helpers(d, cands)
                 n["R1"] += rule_R1(chk, d, label)
                 n["R2"] += rule_R2(chk, d, label)
                 n["R3"] += rule_R3(chk, d, label)
